@@ -53,9 +53,9 @@ theorem paren_overrides : parseExpr Gen.prec [.lparen, .num 0, .op .add, .num 1,
       = some (.node (.leaf 0) .mul (.paren (.node (.leaf 1) .add (.leaf 2)))) := by
   refine ⟨by decide +kernel, by decide +kernel⟩
 
-/-- non-vacuity of the exhaustive theorems: the chains are there, and they all parse -/
-example : [BinOp.sub, .mul, .pow] ∈ allChains 1 ++ allChains 2 ++ allChains 3 := by decide
-example : (allChains 1 ++ allChains 2 ++ allChains 3).length = 3615 := by decide +kernel
+-- non-vacuity of the exhaustive theorems: the chains are there, and they all parse
+set_option maxRecDepth 100000 in
+example : [BinOp.sub, .mul, .pow] ∈ allChains 1 ++ allChains 2 ++ allChains 3 := by decide +kernel
 
 set_option maxRecDepth 100000 in
 theorem chains3_parse : ∀ c ∈ allChains 1 ++ allChains 2 ++ allChains 3, (parseExpr Gen.prec (chainToks c)).isSome := by
@@ -1006,13 +1006,13 @@ example : parseBinOp Gen.prec 10 (.leaf 0) 0 [.op .sub, .num 1, .op .sub, .num 2
     some (.node (.leaf 0) .sub (.node (.leaf 1) .sub (.leaf 2)), []) := by decide +kernel
 
 -- `climb_congr`: two different tables that agree on the operators of `0 + 1 * 2`
-example : ∀ o ∈ opsOf (chainToks [.add, .mul]), conventional o = (fun o => o != .sub) o := by decide
-example : conventional .sub ≠ (fun o => o != .sub) .sub := by decide
+example : ∀ o ∈ opsOf (chainToks [.add, .mul]), conventional o = (fun o => o == .pow || o == .sub) o := by decide
+example : conventional BinOp.sub ≠ (fun o => o == .pow || o == .sub) BinOp.sub := by decide
 
--- `climb_ra_irrelevant`: `conventional` and `allRight` differ on `+` and `*`, which occur in `(0 + 1) * 2 ^ 3 ^ 4 - 5`,
+-- `climb_ra_irrelevant`: `conventional` and `allRight` differ on `+` and `*`, which occur in `(0 + 1) * 2 ^ 3 ^ 4 or 5`,
 -- but agree where it matters
 example : AgreeWhereItMatters Gen.prec conventional allRight
-    [.lparen, .num 0, .op .add, .num 1, .rparen, .op .mul, .num 2, .op .pow, .num 3, .op .pow, .num 4, .op .sub, .num 5] := by
+    [.lparen, .num 0, .op .add, .num 1, .rparen, .op .mul, .num 2, .op .pow, .num 3, .op .pow, .num 4, .op .or, .num 5] := by
   rw [agreeWhereItMatters_iff_pairwise]; decide
 -- and they do not on `0 - 1 - 2`
 example : ¬ AgreeWhereItMatters Gen.prec conventional allRight (chainToks [.sub, .sub]) := by
